@@ -172,7 +172,8 @@ def mapping_job(rng, area, failure, tag, tmp_dir=True, obsm=False):
         if failure.endswith('_slowsibling'):
             # the siblings are still at work when the failure is noticed
             fault['save_delay'] = 0.6
-    real_failure = failure if failure not in ('unwritable_output',) \
+    real_failure = failure if failure not in ('unwritable_output',
+                                              'unwritable_hdf5') \
         and fault is None else 'success'
     if fault is not None:
         real_failure = 'worker_raise'     # build_case: >= 5 cells, no defect
@@ -191,6 +192,11 @@ def mapping_job(rng, area, failure, tag, tmp_dir=True, obsm=False):
     if failure == 'unwritable_output':
         cfg['extended_result_path'] = str(out / 'no_such_dir' /
                                           (tag + '_out.json'))
+    if failure == 'unwritable_hdf5':
+        # not validated up front: the run itself succeeds and the epilogue
+        # of run_mapping (after the clean-up) raises
+        cfg['hdf5_result_path'] = str(out / 'no_such_dir' /
+                                      (tag + '_out.h5'))
     inputs = [cfg['query_path'], cfg['precomputed_stats']['path'],
               cfg['query_markers']['serialized_lookup']]
     outputs = [cfg['extended_result_path'], cfg['hdf5_result_path'],
@@ -823,7 +829,8 @@ MAPPING_FAILURES = ['negative_raw', 'no_marker_overlap',
                     'duplicate_genes', 'worker_raise_before',
                     'worker_exit_before', 'worker_kill_before',
                     'worker_raise_after', 'worker_raise_before_slowsibling',
-                    'worker_kill_before_slowsibling', 'unwritable_output']
+                    'worker_kill_before_slowsibling', 'unwritable_hdf5',
+                    'unwritable_output']
 
 
 def history_mapping(ctx, rng, failure, encoding_hint=None, tmp_dir=True,
@@ -1100,6 +1107,11 @@ def run(ctx):
         history_mapping(ctx, rng, fails[0], encoding_hint='csc')
         history_mapping(ctx, rng, 'unwritable_output', traced_all=False,
                         then_success=False)
+        # the error comes from the epilogue of run_mapping (its finally
+        # block), not from the mapping itself
+        history_mapping(ctx, rng, rng.choice(['unwritable_hdf5',
+                                              'corrupt_query']),
+                        traced_all=False, then_success=False)
         # a worker fails while its siblings are still at work: whatever they
         # write after the failed call has returned is looked for as well
         history_mapping(ctx, rng, rng.choice(
